@@ -326,4 +326,18 @@ theorem sum_over_subdomains (n : Nat) (l : List Coupling) (sel : Coupling → Na
   rw [sumTo_indicator n (sel cp) (fun i => x i cp)]
   simp only [h cp hcp, if_true]
 
+/-! ### soundness of the Boolean checks -/
+
+theorem allTo_sound {n : Nat} {p : Nat → Bool} (h : allTo n p = true) : ∀ i, i < n → p i = true := by
+  intro i hi
+  unfold allTo at h
+  rw [List.all_eq_true] at h
+  exact h i (List.mem_range.mpr hi)
+
+theorem isTarget_complete (cp : Coupling) (f : Nat) (h : Target cp f) : isTarget cp f = true := by
+  obtain ⟨m, hm, hne⟩ := h
+  unfold isTarget
+  rw [List.any_eq_true]
+  exact ⟨m, List.mem_range.mpr hm, by simpa using hne⟩
+
 end PorepyVerif.C04
